@@ -98,9 +98,7 @@ impl<TLocation> NonConstantValueInner<TLocation> {
             NonConstantValueInner::Boolean(bool) => format!("l_{bool}"),
             NonConstantValueInner::String(string) => format!(
                 "s_{}",
-                string
-                    .lookup()
-                    .chars()
+                unescaped_string_literal_chars(string.lookup())
                     .map(|c| match c {
                         'A'..='Z' | 'a'..='z' | '0'..='9' | '_' => c,
                         // N.B. This clearly isn't correct, the string can (for example) include
@@ -273,4 +271,32 @@ impl<TLocation> ConstantValueInner<TLocation> {
             }
         }
     }
+}
+
+/// The characters a string literal denotes. The literal is stored as written (with its
+/// escape sequences), but the runtime computes response keys from the string's value,
+/// in which an escape sequence is a single character.
+fn unescaped_string_literal_chars(source: &str) -> impl Iterator<Item = char> + '_ {
+    let mut chars = source.chars();
+    std::iter::from_fn(move || {
+        let c = chars.next()?;
+        if c != '\\' {
+            return Some(c);
+        }
+        match chars.next()? {
+            'n' => Some('\n'),
+            'r' => Some('\r'),
+            't' => Some('\t'),
+            'b' => Some('\u{8}'),
+            'f' => Some('\u{c}'),
+            'u' => {
+                let code = chars.by_ref().take(4).collect::<String>();
+                u32::from_str_radix(&code, 16)
+                    .ok()
+                    .and_then(char::from_u32)
+                    .or(Some('\u{fffd}'))
+            }
+            escaped => Some(escaped),
+        }
+    })
 }
